@@ -24,6 +24,14 @@ SHRINK_LISTS = ["stream"]
 def gen_params(rng, tier):
     spec = gen.gen_spec(rng, rng.randint(0, 3))
     stream = [[d, w] for d, w in gen.gen_stream(rng, spec, rng.randint(0, 16), gate_rate=0.25)]
+    if rng.random() < 0.08:
+        # a Bag of vectors (alone or as the content of a simple container) over a small alphabet of vectors with NaN and
+        # infinite components: equal vectors are one key of the multiset, whichever NaN objects they are made of
+        bag = {"k": "Bag", "q": [gen.VEC_COL, rng.choice(gen.NAMES)], "range": "N2"}
+        spec = rng.choice([bag, {"k": "Select", "q": [gen.BOOL_COL, None], "cut": bag}, {"k": "Categorize", "q": [gen.STR_COL, None], "value": bag}])
+        alphabet = [[gen.NAN, 1.0], [gen.NAN, gen.INF], [1.0, gen.NAN], [0.0, 0.0], [gen.NAN, gen.NAN], [2.5, 0.5]]
+        for row in stream:
+            row[0][gen.VEC_COL] = list(rng.choice(alphabet))
     perm = list(range(len(stream)))
     rng.shuffle(perm)
     # a Bin with an arbitrary (non-dyadic) number of bins, probed exactly on those of its edges that are exactly
